@@ -53,13 +53,11 @@ import (
 	"fmt"
 	"math/big"
 	"runtime"
-	"sort"
 	"strings"
 	"sync"
 	"testing"
 	"time"
 
-	"github.com/keep-network/keep-core/internal/testutils"
 	kit "github.com/keep-network/keep-core/internal/verifkit"
 	"github.com/keep-network/keep-core/pkg/bitcoin"
 	"github.com/keep-network/keep-core/pkg/chain"
@@ -340,7 +338,7 @@ func (w *xwlWorld) makeProposal(wal *xwlWalletT, k uint64, act string, ver int) 
 		var m [16]byte
 		copy(m[:], []byte{0xff, 0xff, 0xff, 0xff, 0xff, 0xff, 0xff, 0xff})
 		m[8], m[9], m[10], m[11] = byte(wal.idx), byte(k>>8), byte(k), byte(ver)
-		copy(m[12:], []byte(w.tag+"    ")[:4])
+		copy(m[12:], []byte(w.tag + "    ")[:4])
 		return &HeartbeatProposal{Message: m}
 	case "Redemption":
 		script, _ := hex.DecodeString("00148db50eb52063ea9d98b3eac91489a90f738986f6")
@@ -528,9 +526,11 @@ type xwlChannel struct {
 	name  string
 }
 
-func (c *xwlChannel) Name() string                                       { return c.inner.Name() }
-func (c *xwlChannel) SetUnmarshaler(u func() net.TaggedUnmarshaler)      { c.inner.SetUnmarshaler(u) }
-func (c *xwlChannel) SetFilter(filter net.BroadcastChannelFilter) error { return c.inner.SetFilter(filter) }
+func (c *xwlChannel) Name() string                                  { return c.inner.Name() }
+func (c *xwlChannel) SetUnmarshaler(u func() net.TaggedUnmarshaler) { c.inner.SetUnmarshaler(u) }
+func (c *xwlChannel) SetFilter(filter net.BroadcastChannelFilter) error {
+	return c.inner.SetFilter(filter)
+}
 
 type xwlMarshaler interface{ Marshal() ([]byte, error) }
 
@@ -1283,7 +1283,6 @@ func xwlNodeRun(t *testing.T, rep *kit.Report, tr *kit.Tracer, run int, windows 
 
 	kinds := []string{"heartbeat", "busy", "after-busy", "silent", "disallowed", "loss", "noop"}
 	w1, w2 := w.walletByName("w1"), w.walletByName("w2")
-	all := func(d *xwlDelivery) bool { return true }
 	var held []xwlProcKey
 	pending := "" // kind forced for the next window
 	for i := 0; i < windows; i++ {
@@ -1354,7 +1353,6 @@ func xwlNodeRun(t *testing.T, rep *kit.Report, tr *kit.Tracer, run int, windows 
 			}
 			return true
 		}
-		_ = all
 
 		// the coordination block arrives (earlier timers fire on the way)
 		w.advance(k*coordinationFrequencyBlocks, policy)
@@ -1654,7 +1652,3 @@ func xwlSigningRun(t *testing.T, rep *kit.Report, tr *kit.Tracer, run int) {
 	}
 	rep.Count("events", tr.N())
 }
-
-// keep the imports used in every build of the file
-var _ = sort.Ints
-var _ = testutils.AssertIntsEqual
